@@ -1,3 +1,4 @@
+--! kinds: Q R F
 /-
 Model of the calendar-derived quantities of pymeeus/Epoch.py (properties C16 and C10):
 weekday, day of year (both directions), fractional year, mean / apparent sidereal time,
@@ -198,7 +199,7 @@ def mean_sidereal_time (jde : Num) : Num :=
   -- else: deltajd *= 1.00273790935; return (theta0 + deltajd) % 1
   else pmod (theta0 + deltajd * 1.00273790935) 1.0
 
---@only F
+--@only R F
 /-- `Epoch.apparent_sidereal_time(true_obliquity, nutation_longitude)` for float arguments (degrees). -/
 def apparent_sidereal_time (jde true_obliquity nutation_longitude : Num) : Num :=
   let mean_stime := mean_sidereal_time jde
@@ -238,6 +239,24 @@ def leap_seconds (year month : Int) : PyRes Int :=
     -- lyear = (year + 0.25) if month <= 6 else (year + 0.75)
     let lyear : Num := if month ≤ 6 then ofInt year + 0.25 else ofInt year + 0.75
     match leap_idx lyear leap_years 0 with
+    | none => .error .other
+    -- return LEAP_TABLE[list_years[idx - 1]]   (idx = 0 wraps to the last entry)
+    | some 0 => .ok (leap_values.getLastD 0)
+    | some (i + 1) => .ok (leap_values.getD i 0)
+
+/-- `Epoch.leap_seconds(year, month)` for arbitrary numeric arguments (Python ints or floats: an int is
+    converted by the first `+` / `/`, so one text covers both), any month value. -/
+def leap_seconds_num (year month : Num) : PyRes Int :=
+  let ym : Num := year + month / 12.0
+  -- if (year + month / 12.0) <= list_years[0]: return 0
+  if ple ym (leap_years.headD 0.0) then .ok 0
+  -- if (year + month / 12.0) > list_years[-1]: return LEAP_TABLE[list_years[-1]]
+  else if plt (leap_years.getLastD 0.0) ym then .ok (leap_values.getLastD 0)
+  else
+    -- lyear = (year + 0.25) if month <= 6 else (year + 0.75)
+    let lyear : Num := if ple month 6.0 then year + 0.25 else year + 0.75
+    match leap_idx lyear leap_years 0 with
+    -- IndexError: `lyear` beyond the last key
     | none => .error .other
     -- return LEAP_TABLE[list_years[idx - 1]]   (idx = 0 wraps to the last entry)
     | some 0 => .ok (leap_values.getLastD 0)
@@ -356,13 +375,111 @@ def get_date_kw (jde : Num) (utc : Option Bool) (lsec : Option Num) : PyRes (Int
           else doy2date year doy
       else .ok (year, month, day)
 
+/-! ### `local=` : the same paths with `Epoch.utc2local()` as a PARAMETER `off` (seconds, LocalTime - UTC).
+    The wall clock itself is not modelled. -/
+
+/-- `Epoch._compute_jde(y, m, d, utc2tt, leap_seconds, local)` (Epoch.py:403-431), `off = Epoch.utc2local()`. -/
+def compute_jde_local (y m : Int) (d : Num) (utc2tt : Bool) (lsec : Num) (loc : Bool) (off : Num) : PyRes Num :=
+  let jde : Num := compute_jde y m d
+  -- deltasec = 0.0; if local: deltasec = Epoch.utc2local(); if not utc2tt and leap_seconds == 0.0: utc2tt = True
+  let deltasec : Num := if loc then off else 0.0
+  let utc2tt : Bool := if loc && !utc2tt && peq lsec 0.0 then true else utc2tt
+  let dres : PyRes Num :=
+    if utc2tt then
+      if y ≥ 1972 then
+        match leap_seconds y m with
+        | .error e => .error e
+        | .ok ls => .ok (deltasec + 32.184 + 10.0 + ofInt ls)
+      else .ok deltasec
+    else
+      if !(peq lsec 0.0) then
+        if y ≥ 1972 then .ok (deltasec + 32.184 + 10.0 + lsec) else .ok deltasec
+      else .ok deltasec
+  match dres with
+  | .error e => .error e
+  | .ok deltasec => .ok (jde + deltasec / 86400.0)
+
+/-- `Epoch(year, …, sec, utc=…, leap_seconds=…, local=…)` (Epoch.py:356-376): the full kwargs dispatch. -/
+def epoch_set_local (y m : Int) (d h mi s : Num) (utc : Option Bool) (lsec : Option Num) (loc : Option Bool)
+    (off : Num) : PyRes Num :=
+  match check_values y (get_month_int m) d h mi s with
+  | .error e => .error e
+  | .ok (year, month, day, hours, minutes, sec) =>
+    let day := day + (hours / 24.0 + minutes / 1440.0 + sec / 86400.0)
+    match lsec with
+    | some l =>
+      match loc with
+      -- if "leap_seconds" in kwargs: if "local" in kwargs: _compute_jde(..., utc2tt=False, leap_seconds=…, local=…)
+      | some lo => compute_jde_local year month day false l lo off
+      | none => compute_jde_local year month day false l false off
+    | none =>
+      match utc with
+      -- elif "utc" in kwargs: _compute_jde(year, month, day, utc2tt=kwargs["utc"])      (`local` is ignored)
+      | some u => compute_jde_local year month day u 0.0 false off
+      | none =>
+        match loc with
+        -- elif "local" in kwargs: _compute_jde(year, month, day, local=kwargs["local"])
+        | some lo => compute_jde_local year month day false 0.0 lo off
+        | none => compute_jde_local year month day false 0.0 false off
+
+/-- `deltasec` of `get_date(**kwargs)` (Epoch.py:1376-1412) with `local`: note `if "local" in kwargs`, the VALUE of
+    `local` is never looked at. -/
+def get_date_deltasec_local (year month : Int) (day : Num) (utc : Option Bool) (lsec : Option Num)
+    (loc : Option Bool) (off : Num) : PyRes Num :=
+  let tt2utc : Bool := match lsec with
+    | some _ => false
+    | none => (match utc with | some u => u | none => false)
+  let lsv : Num := match lsec with | some l => l | none => 0.0
+  -- if "local" in kwargs: deltasec = Epoch.utc2local(); if not tt2utc and leap_seconds == 0.0: tt2utc = True
+  let deltasec : Num := if loc.isSome then off else 0.0
+  let tt2utc : Bool := if loc.isSome && !tt2utc && peq lsv 0.0 then true else tt2utc
+  if tt2utc then
+    if year ≥ 1972 then
+      let deltasec := deltasec + 32.184 + 10.0
+      match leap_seconds year month with
+      | .error e => .error e
+      | .ok leaps =>
+        let pyear := if month > 1 then year else year - 1
+        let pmonth := if month > 1 then month - 1 else 12
+        match leap_seconds pyear pmonth with
+        | .error e => .error e
+        | .ok pleaps =>
+          let leaps := if pleaps ≠ leaps ∧ plt (day - (deltasec + ofInt pleaps) / 86400.0) 1.0 = true then pleaps else leaps
+          .ok (deltasec + ofInt leaps)
+    else .ok deltasec
+  else
+    if !(peq lsv 0.0) then
+      if year ≥ 1972 then .ok (deltasec + 32.184 + 10.0 + lsv) else .ok deltasec
+    else .ok deltasec
+
+/-- `Epoch.get_date(utc=…, leap_seconds=…, local=…)`, `off = Epoch.utc2local()`. -/
+def get_date_local (jde : Num) (utc : Option Bool) (lsec : Option Num) (loc : Option Bool) (off : Num) :
+    PyRes (Int × Int × Num) :=
+  match get_date jde with
+  | .error e => .error e
+  | .ok (year, month, day) =>
+    match get_date_deltasec_local year month day utc lsec loc off with
+    | .error e => .error e
+    | .ok deltasec =>
+      if !(peq deltasec 0.0) then
+        match get_doy year month day with
+        | .error e => .error e
+        | .ok doy =>
+          let doy := doy - deltasec / 86400.0
+          if plt doy 1.0 then
+            let year := year - 1
+            let doy := if is_leap year then 366.0 + doy else 365.0 + doy
+            doy2date year doy
+          else doy2date year doy
+      else .ok (year, month, day)
+
 /-! ### Delta-T -/
 
 --@only F
 /-- `x ** 2` on floats is libm `pow(x, 2.0)` -/
 def pow2 (x : Num) : Num := Float.pow x 2.0
 --@end
---@only Q
+--@only Q R
 /-- `x ** 2` -/
 def pow2 (x : Num) : Num := x * x
 --@end
